@@ -56,7 +56,8 @@ AllOps == IF D = 2 THEN Ops2 ELSE Ops3
 Keep(x) == OnlyOps = {} \/ x.name \in OnlyOps
 OpList == SelectSeq(AllOps, Keep)
 
-RandField  == [c \in Cells |-> RandomElement(Vals)]
+\* random fields; about one in six is identically zero (degenerate inputs are admissible inputs)
+RandField  == IF RandomElement(1..6) = 1 THEN Zero ELSE [c \in Cells |-> RandomElement(Vals)]
 RandVField == [k \in 1..D |-> RandField]
 \* unit impulse in one random cell (a basis vector of the input space)
 ImpField   == LET c0 == RandomElement(Cells) IN [c \in Cells |-> IF c = c0 THEN 1 ELSE 0]
